@@ -305,7 +305,10 @@ func (d Decimal) IsZero() bool {
 
 // FloorDiv divides d by input and rounds down.
 func (d Decimal) FloorDiv(input Decimal) (Integer, error) {
-	result := decimal.Decimal(d).Div(decimal.Decimal(input)).IntPart()
+	// The integer quotient is taken exactly: Div would first round the quotient
+	// to 16 fractional digits (0.99999999999999999 div 1 is 0, not 1).
+	quotient, _ := decimal.Decimal(d).QuoRem(decimal.Decimal(input), 0)
+	result := quotient.IntPart()
 	if (result < math.MinInt32) || (result > math.MaxInt32) {
 		return 0, ErrIntOverflow
 	}
